@@ -14,8 +14,8 @@ LEVEL = "exploration"
 RULE = (
     "Structured concurrent programs: a parent nested 0-2 actions deep starts 2-4 workers - threads (started bare, through "
     "preserve_context, or through serialize_task_id/continue_task) or asyncio tasks (inheriting the creator's action, with "
-    "nested gather, optionally all entering one shared action's context(), optionally entering an action object the parent "
-    "created) - each running a generated nest of with / context()+finish / finish-inside / start_task actions and "
+    "nested gather); workers may enter the context()/run() of the parent's own action or of one shared action, and may "
+    "enter an action object the parent created; - each running a generated nest of with / context()+finish / finish-inside / start_task actions and "
     "messages, joined before the parent's action ends. Every program is executed under 2-4 generated plans (which worker "
     "runs how many steps: at logging-call boundaries for threads, at await points for coroutines; harness-owned "
     "scheduler). Oracles: in every worker at every step current_action() IS the top of the worker's own stack (None at "
@@ -26,7 +26,7 @@ RULE = (
 )
 ASSUMPTIONS = [
     "sibling order among concurrent workers is schedule-dependent by design and not compared",
-    "unstructured programs (work outliving the enclosing action) and one action object used from several threads are not generated",
+    "unstructured programs (work outliving the enclosing action) are not generated; one action object is used from several threads only at logging-call granularity (the scheduler runs one thread at a time)",
 ]
 
 
@@ -67,8 +67,10 @@ def classify(case, info):
         if w.get("pre"):
             labels.append("action-created-by-parent")
     text = canon(case["workers"])
-    if '"s":' in text and case.get("shared") and case["mode"] == "async":
+    if '"s":' in text and case.get("shared"):
         labels.append("shared-context")
+    if '"p":' in text and case["outer"] >= 1:
+        labels.append("parent-context-entered-by-worker")
     if '"g":' in text and case["mode"] == "async":
         labels.append("nested-gather")
     nontrivial = holding(case) >= 2 and info["switches"] >= 2
@@ -84,8 +86,9 @@ def bodies(mode, depth=2):
         below = level(d - 1)
         action = st.builds(lambda k, b: {"a": k, "body": b}, st.sampled_from(["with", "with", "finish", "finish_inside", "task"]), below)
         options = [msg, action, action]
+        options.append(below.map(lambda b: {"s": b}))
+        options.append(st.tuples(below, st.sampled_from(["context", "context", "run"])).map(lambda p: {"p": p[0], "how": p[1]}))
         if mode == "async":
-            options.append(below.map(lambda b: {"s": b}))
             if d >= 2:
                 options.append(st.lists(level(d - 2), min_size=2, max_size=2).map(lambda bs: {"g": bs}))
         return st.lists(st.one_of(*options), min_size=1, max_size=3)
